@@ -172,7 +172,6 @@ def _chunk(args):
     chunk, seed = args
     import sys
     import logging
-    sys.path.insert(0, "/repo")
     logging.disable(logging.CRITICAL)
     from mosromgr.mostypes import RunningOrder
     logging.disable(logging.CRITICAL)
